@@ -149,7 +149,8 @@ class Extractor {
     for (const ParmVarDecl *P : FD->parameters()) {
       if (!First) S += ", ";
       First = false;
-      S += canonStr(P->getType());
+      // top-level cv-qualifiers of a parameter are not part of the signature
+      S += canonStr(P->getType().getCanonicalType().getUnqualifiedType());
     }
     S += ")";
     if (const auto *MD = dyn_cast<CXXMethodDecl>(FD))
